@@ -27,6 +27,7 @@ type Result struct {
 	Viol         *Viol       // nil = held
 	Inconclusive string      // non-empty = neither verdict
 	Sample       interface{} // written-out description of the case
+	Fatal        bool        // the process is no longer usable (e.g. goroutines deadlocked on package-global locks)
 }
 
 // Ctx is passed to every case.
